@@ -223,7 +223,17 @@ def run(ctx):
     for cname in ("ParserX86ATT", "ParserAArch64"):
         nw = ctx.repo.cls(cname).methods.get("__new__")
         if nw is not None:
-            ok = bool(pm.find("if cls._instance is None:\n    cls._instance = super(M__, cls).__new__(cls)", nw.node)) \
-                or bool(pm.find("cls._instance = M__", nw.node))
-            ctx.check(ok, "R3", "%s.__new__ creates the instance once" % cname, nw.where(),
-                      "singleton construction changed", nw.qname, "__new__")
+            # every store into cls._instance happens only while no instance exists yet (guard on cls._instance or a copy of it)
+            stores = [n for n in ast.walk(nw.node) if isinstance(n, ast.Assign) and any(U(t) == "cls._instance" for t in n.targets)]
+            aliases = {"cls._instance"} | {a.targets[0].id for a in ast.walk(nw.node) if isinstance(a, ast.Assign)
+                                           and isinstance(a.targets[0], ast.Name) and U(a.value) == "cls._instance"}
+            def guarded(n):
+                for e, pol in C.facts_at(n):
+                    t = C.is_none_test(e)
+                    if t is not None and t[0] in aliases and t[1] == pol:
+                        return True
+                    if (not pol) and U(e) in aliases:
+                        return True
+                return False
+            ctx.judge(bool(stores) and all(guarded(n) for n in stores), bool(stores), "R3", "%s.__new__ creates the instance once" % cname,
+                      nw.where(), "the singleton instance is (re)created although one may already exist", nw.qname, "__new__")
